@@ -12,7 +12,7 @@
      obs_ok                validator applied to what the harness observed on gnpy (batch, every request alone,
                            permutations; network digests before / after) *)
 From Coq Require Import QArith Permutation.
-From Verif Require Import Prelude Model.Verdict Model.Batch Proofs.Batch.
+From Verif Require Import Prelude Model.Verdict Model.Batch Proofs.Verdict Proofs.Batch.
 Open Scope Z_scope.
 
 (* The (route, figures, verdict, propagated copy) of the request at ANY position of ANY batch, under any spectrum
@@ -64,10 +64,13 @@ Theorem nocopy_same_without_saturation : forall SS A (assign : SS -> request -> 
 Proof. exact Proofs.Batch.nocopy_same_if_stable. Qed.
 Print Assumptions nocopy_same_without_saturation.
 
-(* inside one request the propagations do share the copy (the mode loop): its figures are the `leaky_runs` of C13 *)
-Theorem request_internal_sharing : forall ls p, snd (run_loads p ls) = leaky_runs p ls.
-Proof. exact Proofs.Batch.run_loads_leaky. Qed.
-Print Assumptions request_internal_sharing.
+(* inside one request the propagations share the copy but each starts from the designed gains (C13): their figures are
+   those of fresh propagations and the copy ends in the state of the last one *)
+Theorem request_internal_fresh : forall d ls p, same_shape d p ->
+  snd (run_loads d p ls) = fresh_runs d ls /\
+  fst (run_loads d p ls) = match List.last (map Some ls) None with Some l => fst (run_load d l) | None => p end.
+Proof. exact Proofs.Batch.run_loads_fresh. Qed.
+Print Assumptions request_internal_fresh.
 
 (* the validator applied to observed behaviour decides its specification *)
 Theorem obs_ok_iff : forall o, obs_ok o = true <-> ObsSpec o.
